@@ -114,6 +114,13 @@ def run(tier):
                 if h["v"] == NUL:
                     h["v"] = 1
         scen.append(scenario(pred, hist, rng.randrange(len(SELECTS)), rng, "mix", "upper"))
+    # a long STATETTL (nothing is reaped while the scenario runs): the group restarts from empty after every firing all the same -
+    # what it aggregates for the SELECT list AND what it aggregates for the trigger alone
+    import copy
+    for sc in [copy.deepcopy(x) for x in rng.sample(scen, min(len(scen), 150 if quick else 5000))]:
+        if " WITH " in sc["sql"]: continue
+        sc["sql"] += " WITH (STATETTL='%s')" % rng.choice(["60s", "5m", "1h"])
+        scen.append(sc)
     # trigger aggregates over a NESTED field only (no COUNT(*) in the predicate)
     for _ in range(40 if quick else 1500):
         pred = rng.choice(["sum>3", "max>=3", "min<0", "avg>=2"])
